@@ -11,7 +11,18 @@ from symx.symtext import SymBase, SymText
 
 BOUNDS = {"quick": 4, "thorough": 5}
 FILENAME = "f.c"
-LOC = re.compile(r"^f\.c(:(\d+|\x01I[^\x02]*\x02)(:(\d+|\x01I[^\x02]*\x02))?)?: ")
+# the file name is f.c, or whatever a #line / linemarker in the input established (a slice of the input, possibly empty)
+LOC = re.compile(r"^(f\.c|\x01S[^\x02]*\x02)(:(\d+|\x01I[^\x02]*\x02)(:(\d+|\x01I[^\x02]*\x02))?)?: ")
+
+
+def loc_ok_concrete(msg, text):
+    if re.match(r"^f\.c(:\d+(:\d+)?)?: ", msg):
+        return True
+    if "#" in text:
+        # a line directive may have renamed the file: any name that occurs in the input between quotes
+        m = re.match(r"^(.*?)(:\d+(:\d+)?)?: ", msg, re.S)
+        return bool(m) and ('"' + m.group(1) + '"') in text
+    return False
 
 
 def run(report, findings, rp):
@@ -63,7 +74,7 @@ def run(report, findings, rp):
             r = rp.ask(op="parse", text=v["text"], filename=FILENAME)
             v["replay_outcome"] = r
             if (v["kind"] == "exc" and r.get("outcome") == "exc" and r["exc"]["type"] == v["exc"]["type"]) or (
-                v["kind"] == "badloc" and r.get("outcome") == "ParseError" and not re.match(r"^f\.c(:\d+(:\d+)?)?: ", r["msg"])
+                v["kind"] == "badloc" and r.get("outcome") == "ParseError" and not loc_ok_concrete(r["msg"], v["text"])
             ):
                 good = v
                 break
